@@ -52,9 +52,6 @@ Definition model_eqb (m : option (list assignment * nat)) (out : list assignment
   | None => false
   end.
 
-(* what the model's assignment puts into shard i *)
-Definition model_stored (out : list assignment) (i : nat) : list N :=
-  concat (map (fun a => if (a_idx a =? i)%nat then map N.of_nat (seq (a_start a) (a_end a - a_start a)) else []) out).
 Fixpoint listN_eqb (a b : list N) : bool :=
   match a, b with
   | [], [] => true
